@@ -31,7 +31,9 @@ def cases(tier, seed):
     for i in range(m):
         out.append(dict(id="busoff%03d" % i, kind="busoff", index=i))
     stock = ["ieee14/ieee14_linetrip.xlsx", "kundur/kundur_full.xlsx", "ieee14/ieee14_island.xlsx", "kundur/kundur_islands.xlsx",
-             "ieee14/ieee14_jumper.xlsx", "ieee14/ieee14_conn.xlsx"]
+             "ieee14/ieee14_jumper.xlsx", "ieee14/ieee14_conn.xlsx",
+             # networks without any synchronous machine (static only / converter interface): events still re-check connectivity
+             "matpower/case14.m", "5bus_fortescue.xlsx", "ieee14/ieee14.raw"]
     k = 2 if tier == "quick" else 10
     for p in stock:
         for j in range(k):
@@ -308,7 +310,8 @@ def run_busoff(spec, res):
             if not ok:
                 from vf.oracle import powerflow as opf
                 d, unsupported = opf.extract(ss)
-                ref = opf.solve(d, tol=1e-8, max_iter=20) if not unsupported else None
+                # "well-posed within normal loading" as in C01: the own Newton solver needs no more than 10 iterations
+                ref = opf.solve(d, tol=1e-8, max_iter=10) if not unsupported else None
                 if ref is not None and ref["converged"]:
                     res.violate("busoff_spoils_convergence", "bus(es) %s switched off via %s%s: PFlow.run() fails although the remaining network "
                                 "is one island with a slack generator and the own Newton solver converges on it in %d iterations" % (
@@ -342,7 +345,13 @@ def run_tds(spec, res):
         ss.TDS.config.no_tqdm = 1
         ss.TDS.run()
     except Exception as e:
-        res.note("run raised %r" % (e,))
+        import traceback
+        tb = traceback.extract_tb(e.__traceback__)
+        if any(fr.name == "connectivity" for fr in tb):
+            res.violate("connectivity_raises_during_simulation", "%s: the connectivity check after a switching event at t=%.4f raised %r (in %s)" % (
+                spec["path"], float(ss.dae.t), e, tb[-1].name), case=spec["path"])
+        else:
+            res.note("run raised %r" % (e,))
     res.count("tds_runs")
     res.nontrivial = res.obs.get("connectivity_calls_checked", 0) >= 2
     res.sample = dict(case=spec["path"], toggles=k, connectivity_calls=res.obs.get("connectivity_calls_checked", 0))
